@@ -72,3 +72,83 @@ def inline_new_compiled_regexes(tree: ast.Module, pinned: set[str]) -> int:
             ast.fix_missing_locations(c)
             count += 1
     return count
+
+
+def inline_new_string_constants(tree: ast.Module, pinned: set[str]) -> int:
+    """E8, hoisted literals: `_NAME = "text"` at module level, where _NAME is not a module-level name of the pinned tree, is
+    bound once, never shadowed by a parameter / local and only ever read, is read as the literal it names at every use inside a
+    function; a `{_NAME}` field of an f-string becomes part of the f-string's text. Hoisting layout literals (`"==="`,
+    `"===END==="`, `"// "`, `"  "`) into named constants is ordinary maintenance; the rules read the literals where they are
+    written out. No-op on the pinned tree."""
+    cands: dict[str, ast.Constant] = {}
+    for st in tree.body:
+        tgt, val = None, None
+        if isinstance(st, ast.Assign) and len(st.targets) == 1 and isinstance(st.targets[0], ast.Name):
+            tgt, val = st.targets[0].id, st.value
+        elif isinstance(st, ast.AnnAssign) and isinstance(st.target, ast.Name) and st.value is not None:
+            tgt, val = st.target.id, st.value
+        if tgt is None or tgt in pinned:
+            continue
+
+        def _fold(e):
+            if isinstance(e, ast.Constant) and isinstance(e.value, str):
+                return e.value
+            if isinstance(e, ast.Name) and e.id in cands:
+                return cands[e.id].value
+            if isinstance(e, ast.BinOp) and isinstance(e.op, ast.Add):
+                a, b = _fold(e.left), _fold(e.right)
+                return a + b if a is not None and b is not None else None
+            if isinstance(e, ast.JoinedStr):
+                parts = [(_fold(v.value) if isinstance(v, ast.FormattedValue) and v.conversion == -1 and v.format_spec is None else (v.value if isinstance(v, ast.Constant) else None)) for v in e.values]
+                return "".join(parts) if all(isinstance(x, str) for x in parts) else None
+            return None
+
+        folded = _fold(val)
+        if folded is None:
+            continue
+        cands[tgt] = ast.Constant(value=folded)
+    if not cands:
+        return 0
+    stores: dict[str, int] = {}
+    for n in ast.walk(tree):
+        if isinstance(n, ast.Name) and n.id in cands and isinstance(n.ctx, (ast.Store, ast.Del)):
+            stores[n.id] = stores.get(n.id, 0) + 1
+        if isinstance(n, ast.arg) and n.arg in cands:
+            stores[n.arg] = 99
+        if isinstance(n, ast.Global) and any(x in cands for x in n.names):
+            for x in n.names:
+                stores[x] = 99
+    for k, v in stores.items():
+        if v != 1:
+            cands.pop(k, None)
+    if not cands:
+        return 0
+    count = 0
+
+    class _Sub(ast.NodeTransformer):
+        def visit_Name(self, n: ast.Name):  # noqa: N802
+            nonlocal count
+            if isinstance(n.ctx, ast.Load) and n.id in cands:
+                count += 1
+                return ast.copy_location(ast.Constant(value=cands[n.id].value), n)
+            return n
+
+        def visit_JoinedStr(self, n: ast.JoinedStr):  # noqa: N802
+            self.generic_visit(n)
+            out: list[ast.expr] = []
+            for v in n.values:
+                if isinstance(v, ast.FormattedValue) and isinstance(v.value, ast.Constant) and isinstance(v.value.value, str) and v.conversion == -1 and v.format_spec is None:
+                    v = ast.copy_location(ast.Constant(value=v.value.value), v)
+                if isinstance(v, ast.Constant) and out and isinstance(out[-1], ast.Constant):
+                    out[-1] = ast.copy_location(ast.Constant(value=out[-1].value + v.value), out[-1])
+                else:
+                    out.append(v)
+            if len(out) == 1 and isinstance(out[0], ast.Constant):
+                return ast.copy_location(out[0], n)
+            n.values = out
+            return n
+
+    for fn in [f for f in ast.walk(tree) if isinstance(f, (ast.FunctionDef, ast.AsyncFunctionDef))]:
+        fn.body = [_Sub().visit(st) for st in fn.body]
+    ast.fix_missing_locations(tree)
+    return count
